@@ -186,19 +186,48 @@ fn free_port() -> u16 {
 
 struct Running {
     handle: ServerHandle,
+    /// a clone taken right after start-up: commands alternate between the two handles
+    handle2: ServerHandle,
     addrs: Vec<Addr>,
     thread: std::thread::JoinHandle<()>,
 }
 
 /// build and start the server on its own thread (own System); token order = order of the builder chain
-fn start(w: usize, l: usize, chain: &[String], dir: &PathBuf, sh: &Arc<Shared>, actix_system: bool) -> Result<Running, String> {
+fn start(w: usize, l: usize, chain: &[String], dir: &PathBuf, sh: &Arc<Shared>, actix_system: bool, opt_seed: u64) -> Result<Running, String> {
     let (tx, rx) = mpsc::channel::<Result<(ServerHandle, Vec<Addr>), String>>();
     let chain = chain.to_vec();
     let dir = dir.clone();
     let sh = sh.clone();
     let thread = std::thread::spawn(move || {
         let body = async move {
-            let mut b = Server::build().workers(w).max_concurrent_connections(l).disable_signals().shutdown_timeout(1);
+            // the builder's options in an order derived from the scenario (half of them after the listeners): no option
+            // may depend on when it is given, or disturb another one
+            let mut opts: Vec<u8> = vec![0, 1, 2, 3, 4, 5];
+            let mut x = opt_seed | 1;
+            for i in (1..opts.len()).rev() {
+                x ^= x << 13;
+                x ^= x >> 7;
+                x ^= x << 17;
+                opts.swap(i, (x % (i as u64 + 1)) as usize);
+            }
+            let apply = |b: actix_server::ServerBuilder, o: u8| match o {
+                0 => b.workers(w),
+                1 => {
+                    if opt_seed % 3 == 0 {
+                        b.maxconn(l)
+                    } else {
+                        b.max_concurrent_connections(l)
+                    }
+                }
+                2 => b.disable_signals(),
+                3 => b.shutdown_timeout(2),
+                4 => b.worker_max_blocking_threads(3),
+                _ => b,
+            };
+            let mut b = Server::build().backlog(64);
+            for &o in &opts[..3] {
+                b = apply(b, o);
+            }
             let mut addrs = Vec::new();
             let nworkers = w;
             for (call, it) in chain.iter().enumerate() {
@@ -287,6 +316,9 @@ fn start(w: usize, l: usize, chain: &[String], dir: &PathBuf, sh: &Arc<Shared>, 
                     }
                 };
             }
+            for &o in &opts[3..] {
+                b = apply(b, o);
+            }
             let srv = b.run();
             let _ = tx.send(Ok((srv.handle(), addrs)));
             let _ = srv.await;
@@ -305,7 +337,8 @@ fn start(w: usize, l: usize, chain: &[String], dir: &PathBuf, sh: &Arc<Shared>, 
             if block_on(handle.resume()).is_none() {
                 return Err("server did not acknowledge a command within 6 s of starting".into());
             }
-            Ok(Running { handle, addrs, thread })
+            let handle2 = handle.clone();
+            Ok(Running { handle, handle2, addrs, thread })
         }
         Ok(Err(e)) => Err(e),
         Err(_) => Err("server did not start".into()),
@@ -394,7 +427,9 @@ fn run_once(line: &str, dir: &PathBuf, quiet: Duration) -> String {
     let exp = expected_counts(field(line, "exp").unwrap_or(""));
     let sh = Arc::new(Shared::default());
     let actix_system = field(line, "S").unwrap_or("a") == "a";
-    let run = match start(w, l, &chain, dir, &sh, actix_system) {
+    // FNV-1a of the scenario text (without the expectation)
+    let opt_seed = line.split(";exp=").next().unwrap().bytes().fold(0xcbf29ce484222325u64, |h, b| (h ^ b as u64).wrapping_mul(0x100000001b3));
+    let run = match start(w, l, &chain, dir, &sh, actix_system, opt_seed) {
         Ok(r) => r,
         Err(e) => return format!("START_FAILED {e}"),
     };
@@ -405,6 +440,7 @@ fn run_once(line: &str, dir: &PathBuf, quiet: Duration) -> String {
     let mut out = Vec::new();
     let mut multi = 0usize;
     let mut starved = false;
+    let mut graceful: Option<&'static str> = None;
     for (k, op) in ops.iter().enumerate() {
         let mut note = String::new();
         let rest = &op[1..];
@@ -416,6 +452,10 @@ fn run_once(line: &str, dir: &PathBuf, quiet: Duration) -> String {
                     sh.poison.store(true, Ordering::SeqCst);
                 }
                 // the EMFILE window and the quiet period after it stay well below the 500 ms back-off
+                if op.as_bytes()[0] == b'E' && k == 0 {
+                    // see the generator: give the worker threads time to finish building their runtimes
+                    std::thread::sleep(Duration::from_millis(300));
+                }
                 let r = if op.as_bytes()[0] != b'E' { connect(&run.addrs[tok]) } else { connect_emfile(&run.addrs[tok], quiet.min(Duration::from_millis(200))) };
                 match r {
                     Ok(mut c) => {
@@ -472,16 +512,44 @@ fn run_once(line: &str, dir: &PathBuf, quiet: Duration) -> String {
                 }
             }
             b'P' => {
-                if block_on(run.handle.pause()).is_none() {
+                let h = if k % 2 == 0 { &run.handle } else { &run.handle2 };
+                if block_on(h.pause()).is_none() {
                     note = "!pause-not-acknowledged".into();
                 }
             }
             b'R' => {
-                if block_on(run.handle.resume()).is_none() {
+                let h = if k % 3 == 0 { &run.handle2 } else { &run.handle };
+                if block_on(h.resume()).is_none() {
                     note = "!resume-not-acknowledged".into();
                 }
             }
             b'+' => std::thread::sleep(Duration::from_millis(rest.parse().unwrap())),
+            b'G' => {
+                // graceful stop (last op): must not complete while a connection is in progress; completes once they are closed
+                let h = run.handle2.clone();
+                let (gtx, grx) = mpsc::channel();
+                std::thread::spawn(move || {
+                    let _ = gtx.send(block_on(h.stop(true)).is_some());
+                });
+                let busy = sh.active.iter().any(|a| a.load(Ordering::SeqCst) > 0);
+                let early = grx.recv_timeout(if busy { Duration::from_millis(700) } else { BOUND });
+                let verdict = match (busy, early) {
+                    (true, Ok(_)) => "early", // completed with connections in progress (well before shutdown_timeout)
+                    (true, Err(_)) => {
+                        for (_, c) in clients.iter_mut() {
+                            multi += c.extra_greetings();
+                        }
+                        clients.clear();
+                        match grx.recv_timeout(BOUND) {
+                            Ok(true) => "held",
+                            _ => "never",
+                        }
+                    }
+                    (false, Ok(true)) => "idle",
+                    (false, _) => "never",
+                };
+                graceful = Some(verdict);
+            }
             _ => note = "!bad-op".into(),
         }
         if op.as_bytes()[0] == b'K' && !wait_until_for(if starved { Duration::from_secs(1) } else { BOUND }, || !sh.poison.load(Ordering::SeqCst)) {
@@ -489,7 +557,7 @@ fn run_once(line: &str, dir: &PathBuf, quiet: Duration) -> String {
             sh.poison.store(false, Ordering::SeqCst);
             starved = true;
         }
-        let want = seen + exp.get(k).copied().unwrap_or(0);
+        let want = seen + if graceful.is_some() { 0 } else { exp.get(k).copied().unwrap_or(0) };
         // once a run has failed to deliver in time the remaining steps only wait 1 s each
         let bound = if starved { Duration::from_secs(1) } else { BOUND };
         if !wait_until_for(bound, || sh.served.lock().unwrap().len() >= want) {
@@ -518,6 +586,10 @@ fn run_once(line: &str, dir: &PathBuf, quiet: Duration) -> String {
             items.push(format!("{c}@drop"));
         }
         clients.retain(|(c, _)| !dropped.contains(c));
+        if let Some(v) = graceful {
+            out.push(format!("G={v}{note}"));
+            break;
+        }
         out.push(format!("{}={}/a{}{}", op, items.join(","), act.join("."), note));
     }
     for (_, c) in clients.iter_mut() {
@@ -525,7 +597,7 @@ fn run_once(line: &str, dir: &PathBuf, quiet: Duration) -> String {
     }
     drop(clients);
     drop(poisoned);
-    let stopped = block_on(run.handle.stop(false)).is_some();
+    let stopped = graceful.is_some() || block_on(run.handle.stop(false)).is_some();
     let joined = {
         let (tx, rx) = mpsc::channel();
         std::thread::spawn(move || {
